@@ -310,6 +310,10 @@ def header(s: str) -> str:
 # value types of the aliased field: trivial (value is used as it is), with default, non-trivial packer, optional
 FIELD_KINDS = {
     "int": ("int", "5", "5", ""),
+    # identity (un)packer: the generator takes the `unpacked_value == "value"` branches
+    "any": ("Any", "5", "5", ""),
+    "any-default": ("Any", "5", "5", "default=1, "),
+    "pass-through": ("int", "5", "5", ""),
     "int-default": ("int", "5", "5", "default=1, "),
     "list": ("List[int]", "[5, 6]", "[5, 6]", ""),
     "opt-list-default": ("Optional[List[int]]", "[5]", "[5]", "default=None, "),
@@ -336,12 +340,13 @@ def src_alias(s, how, fk, opts):
     if cgo:
         copts["code_generation_options"] = "[" + ", ".join(cgo) + "]"
     extra = ""
+    pt = "'serialize': pass_through, 'deserialize': pass_through" if fk == "pass-through" else ""
     if how == "metadata":
-        fld = f"    x: {ftype} = field({dflt}metadata={{'alias': S}})"
+        fld = f"    x: {ftype} = field({dflt}metadata={{'alias': S{', ' + pt if pt else ''}}})"
     elif how == "annotated":
-        fld = f"    x: Annotated[{ftype}, Alias(S)]" + (f" = field({dflt[:-2]})" if dflt else "")
+        fld = f"    x: Annotated[{ftype}, Alias(S)]" + (f" = field({dflt}metadata={{{pt}}})" if (dflt or pt) else "")
     else:
-        fld = f"    x: {ftype}" + (f" = field({dflt[:-2]})" if dflt else "")
+        fld = f"    x: {ftype}" + (f" = field({dflt}metadata={{{pt}}})" if (dflt or pt) else "")
         copts["aliases"] = "{'x': S}"
     body = header(s) + f"""
 @dataclass
@@ -533,17 +538,39 @@ def check():
 
 
 def src_enum_member_name(s):
-    """known finding C16/literal-enum-member-name: the member NAME is spliced as an attribute access"""
+    """functional-API enum whose member NAME is the string (any string is accepted by Enum);
+    the member is used as a Literal value (fixed in /repo by 1446c19: E[name!r] instead of E.name)"""
     return header(s) + """
 E = enum.Enum('E', {S: 1, 'ok': 2})
 @dataclass
 class A(DataClassDictMixin):
     x: Literal[E[S]]
+    y: Literal[E[S], E.ok, 'z'] = E.ok
 def check():
     eq('from_dict', lambda: A.from_dict({'x': 1}), A(E[S]))
-    eq('to_dict', lambda: A(E[S]).to_dict(), {'x': 1})
+    eq('from_dict y', lambda: A.from_dict({'x': 1, 'y': 1}), A(E[S], E[S]))
+    eq('to_dict', lambda: A(E[S], E[S]).to_dict(), {'x': 1, 'y': 1})
+    raises('other member', lambda: A.from_dict({'x': 2}), InvalidFieldValue, 'field_name', 'x')
+    raises('other member out', lambda: A(E.ok).to_dict(), InvalidFieldValue, 'field_name', 'x')
+    eq('decoder', lambda: BasicDecoder(Literal[E[S]]).decode(1), E[S])
+    eq('encoder', lambda: BasicEncoder(Literal[E[S]]).encode(E[S]), 1)
     return OUT
 """
+
+
+def enum_name_ok(s: str) -> bool:
+    """names the Enum functional API itself accepts as an ordinary member (it refuses
+    _sunder_/dunder names, descriptors and a few reserved words)"""
+    if s == "ok":
+        return False
+    try:
+        import enum as _e
+        with warnings.catch_warnings():
+            warnings.simplefilter("ignore")
+            E = _e.Enum("E", {s: 1, "ok": 2})
+        return E[s].name == s and E[s].value == 1 and len(list(E)) == 2
+    except Exception:
+        return False
 
 
 IDENTS = ["a", "x1", "_x"[1:], "é", "中", "ﬁ", "ª", "camelCase", "x_y", "Āb", "d", "value", "kwargs", "MISSING", "self", "cls"]
@@ -591,12 +618,14 @@ def gen_case(rng, s, pos):
     if pos == "discriminator":
         how = rng.choice(["config", "annotated", "config-forbid"])
         return ("discriminator-" + how, "", src_discriminator(s, how))
+    if pos == "enum-name":
+        return ("literal-enum-member-name", "", src_enum_member_name(s))
     if pos in ("literal-str", "literal-bytes", "enum-value", "default"):
         return (pos, "", src_literal(s, pos.replace("literal-", "")))
     raise ValueError(pos)
 
 
-POSITIONS = ["alias", "alias2", "typeddict", "discriminator", "literal-str", "literal-bytes", "enum-value", "default"]
+POSITIONS = ["alias", "alias2", "typeddict", "discriminator", "literal-str", "literal-bytes", "enum-value", "default", "enum-name"]
 
 
 def in_domain(s: str, pos: str) -> bool:
@@ -613,20 +642,15 @@ def in_domain(s: str, pos: str) -> bool:
         return s not in ("y", "x~")
     if pos == "literal-str":
         return s not in ("other",) and s + "~" != "other"
+    if pos == "enum-name":
+        return enum_name_ok(s)
     if pos == "literal-bytes":
         return s.encode("utf-8", "surrogatepass") not in (b"other",) 
     return True
 
 
 def classify(pos: str, s: str, fails) -> dict:
-    sig = {"position": pos}
-    if pos.startswith("alias-") and s == "":
-        sig["kind"] = "empty-alias-ignored"
-    elif pos == "literal-enum-member-name":
-        sig["kind"] = "enum-member-name-spliced-raw"
-    else:
-        sig["kind"] = "string-not-data"
-    return sig
+    return {"position": pos, "kind": "string-not-data"}
 
 
 def oracle(ctx: vlib.Ctx, boost: bool = False):
@@ -672,17 +696,6 @@ def oracle(ctx: vlib.Ctx, boost: bool = False):
                          {"entry": "exec(source); check()", "source": src_namedtuple(s, how), "string": s,
                           "position": "namedtuple-as-dict", "observed": fails[:5], "sentinel_hits": len(hits)},
                          {"position": "namedtuple-as-dict", "kind": "string-not-data"})
-    # known finding (outside the eight listed positions): enum member NAMES in Literal[...]
-    for s in ["a-b", "a b", "it's", f"ok if {_HIT} else E.ok"]:
-        src = src_enum_member_name(s)
-        fails, hits = run_src(src)
-        ctx.count(("literal-enum-member-name", s))
-        ctx.hist("positions", "literal-enum-member-name")
-        if fails or hits:
-            ctx.fail(f"literal-enum-member-name with member name {s!r}: " + ("SENTINEL FIRED; " if hits else "") + str(fails[:1]),
-                     {"entry": "exec(source); check()", "source": src, "string": s, "position": "literal-enum-member-name",
-                      "observed": fails[:5], "sentinel_hits": len(hits)},
-                     classify("literal-enum-member-name", s, fails))
     return nfail
 
 
@@ -691,7 +704,8 @@ def oracle(ctx: vlib.Ctx, boost: bool = False):
 # ---------------------------------------------------------------------------
 
 THEOREMS = ["C16_repr_lex", "C16_ascii_lex", "C16_repr_bytes_lex", "C16_repr_clean", "C16_raw_plain_lex",
-            "C16_raw_refuted", "C16_sites", "C16_site_literal", "C16_site_literal_bytes"]
+            "C16_raw_refuted", "C16_sites", "C16_site_literal", "C16_site_guarded", "C16_ident_char_inert",
+            "C16_site_literal_bytes"]
 
 
 def k10_evidence(ctx: vlib.Ctx):
@@ -705,7 +719,7 @@ def k10_evidence(ctx: vlib.Ctx):
     except Exception as e:
         ctx.notes.append(f"K10 report failed: {type(e).__name__}: {e}")
         return None
-    bad = [r for r in rep["sites"] if r["kind"] not in ("KRepr", "KAscii")]
+    bad = [r for r in rep["sites"] if r["kind"] not in ("KRepr", "KAscii", "KGuardedIdent")]
     ctx.coverage["k10"] = {"rows": len(rep["sites"]), "counts": rep["counts"], "excluded_in_raise": rep["excluded_in_raise"],
                            "formatted_values_in_source": rep["total_formatted_values"],
                            "not_ok_rows": [f"{r['kind']} {r['file'].split('/')[-1]}:{r['line']} {r['expr'][:60]} ({r['origin'][:60]})" for r in bad[:20]],
@@ -721,14 +735,14 @@ def run(ctx: vlib.Ctx):
         "strings: hand-written corpus (quotes, backslash, newline, CR, NUL, braces, %, non-ASCII, combining, non-BMP, lone "
         "surrogates, U+0085/2028, escape look-alikes, code fragments closing the literal with a sentinel side effect) + random "
         "strings over that alphabet + random code points; each corpus string goes to every position (metadata/Annotated/Config "
-        "alias x field kind x option subset, TypedDict key, discriminator field Config/Annotated/forbid, Literal str/bytes, enum value, "
-        "default value), random strings to two positions each; distinct = (position, string); named-tuple keys: identifiers only")
+        "alias x field kind (incl. Any / pass_through identity unpackers) x option subset, TypedDict key, discriminator field "
+        "Config/Annotated/forbid, Literal str/bytes, enum value, enum member NAME inside Literal, default value), random strings to two positions each; distinct = (position, string); named-tuple keys: identifiers only")
     ctx.assumptions += [
         "the printable oracle of repr is arbitrary in the theorems except that lone surrogates are not printable (checked for str.isprintable on all code points each run)",
         "strings are sequences of code points < 0x110000; bytes are < 256",
         "K10: every producer of generated sub-expressions lives in builder.py/pack.py/unpack.py/common.py; user-supplied pack/unpack callables, "
         "SerializationStrategy objects and type names are bound by reference/name (C17), not scanned here",
-        "dataclass and named-tuple field names are identifiers (enforced by Python); enum member names are not (known finding)",
+        "dataclass and named-tuple field names are identifiers (enforced by Python); enum member names are DATA (any string the Enum API accepts)",
     ]
     ctx.trusted += [
         "PyStrLit.v: py_repr / py_ascii / py_repr_bytes / lex_string / lex_bytes model CPython 3.12 unicode_repr, bytes_repr and the "
